@@ -41,8 +41,8 @@ MODELLED_NOT_VERIFIED = [
     "hand-written definition (theorems kernel_*); the control flow AROUND the kernels (loops over edges/children, object plumbing) is "
     "hand-modelled",
     "C01: the mutable Bipartition object protocol (is_mutable assertions, hashing by split mask) is exercised by the oracle only; the "
-    "edge-map caches and the restructuring operations of op `maintained` are not modelled (the model is asked for `encode` of the "
-    "tree each of them leaves behind); `ordination_in_mask` of set_bit_index_iter is modelled and compared, not proved",
+    "restructuring operations of op `maintained` other than suppress_unifurcations(update_bipartitions=True) are not modelled (the model is asked for `encode` of the "
+    "tree each of them leaves behind); of the edge-map caches only the content rebuilt on access is modelled (edgeMap), not the cache state; `ordination_in_mask` of set_bit_index_iter is modelled and compared, not proved",
 ]
 EXPLANATION = ("Theorems over all masks/trees, about the driver's own definitions. (a,b) encode_pairs_spec: every pair of `encode` is a node's "
                "leafset mask and its rooted / LSB-normalised split; encode_one_pair_per_node: as a multiset, exactly one pair per node of the "
@@ -71,11 +71,16 @@ EXPLANATION = ("Theorems over all masks/trees, about the driver's own definition
                "(after ANY history of encodings, edits and queries a default query re-encodes and answers for the tree as it stands), "
                "history_default_query_rooted_sets / _unrooted_sets (that answer as the set condition over every edge), "
                "history_updated_query_uses_stored (is_bipartitions_updated=True answers from the stored pairs, whatever the tree is now), "
-               "history_edit_and_encode. Tie A, second part: kernel_* (13 theorems) prove every kernel regenerated from inside the anchored "
+               "history_edit_and_encode; encode_twice_same_splits (a second encoding, any flags, of the tree a first one leaves has the same split SET - the tree may change again) and "
+               "history_updated_query_after_encode_is_fresh (encode, then is_bipartitions_updated=True: the answer of a fresh default query; Good preserved by the encoder: Aux.encodeTree_good). "
+               "Maintained encoding with edge identity (recsPost/encodeIds/suppressMaint/edgeMap, driver op maint): suppress_maintained (encode without suppression, then "
+               "suppress_unifurcations(update_bipartitions=True): the stored list is exactly the id-tagged encoding of the edited tree - pruning is by identity; no Good hypothesis, "
+               "taxon-less leaves included), edgeMap_keys (keys of the rebuilt split_bitmask_edge_map = the stored splits). Clauses that need no Good (hold with taxon-less leaves): mask_spec, "
+               "split_spec, encode_pairs_spec, encode_one_pair_per_node, suppress_maintained, kernel_*, history_default_query_is_fresh; (c), (d) and the set form of (e) need Good. Tie A, second part: kernel_* (13 theorems) prove every kernel regenerated from inside the anchored "
                "methods equal to the model's definition. Underneath: refinement of the generated integer functions, mask_spec, "
-               "split_spec, norm_sets, ins_spec/build_spec. Not proved: trees with taxon-less leaves (not Good); idempotence of encode (an "
-               "updated query right after an encoding is judged by the oracle only); the restructuring operations that maintain an encoding "
-               "(oracle: stored encoding judged after every operation) - correspondence + oracle only.")
+               "split_spec, norm_sets, ins_spec/build_spec. Not proved: clauses (c),(d) for trees with taxon-less leaves (not Good); the restructuring operations other than "
+               "suppress_unifurcations that maintain an encoding (prune/reseed/reroot...: oracle judges the stored encoding after every operation); the edge-map "
+               "cache as STATE (only its rebuilt content is modelled); ordination_in_mask - correspondence + oracle only.")
 
 
 # ------------------------------------------------------------------ independent oracles
@@ -1330,11 +1335,38 @@ def judge_nsbroken(ctx, dendropy, case, pending):
     namespace_for(dendropy, case["ns"])      # raises NamespaceBroken -> reported by `judge`
 
 
+def judge_maint(ctx, dendropy, case, pending):
+    """the model's id-tagged maintained encoding (`encodeIds`, `suppressMaint`, `edgeMap`; theorem suppress_maintained): encode
+    without suppression, read the edge map, suppress_unifurcations(update_bipartitions=True); the stored list with the IDENTITY of
+    each bipartition's edge before and after, the tree, and split_bitmask_edge_map are compared with the model; the stored
+    encoding is also judged from scratch"""
+    tree, ids = tree_for_case(dendropy, case)
+    col = bool(case["col"])
+    tree.encode_bipartitions(suppress_unifurcations=False, collapse_unrooted_basal_bifurcation=col)
+
+    def tagged():
+        node_of = {id(nd.edge.bipartition): nd for nd in tu.walk(tree.seed_node)}
+        out = []
+        for b in tree.bipartition_encoding:
+            nd = node_of.get(id(b))
+            out.append("%s:%d:%d" % ("?" if nd is None else ids.of(nd), b.leafset_bitmask, b.split_bitmask))
+        return " ".join(out)
+    enc0 = tagged()
+    _ = tree.split_bitmask_edge_map
+    tree.suppress_unifurcations(update_bipartitions=True)
+    ctx.case(["maint", case["tree"], case["rooted"], col], nontrivial_tree(tree), sample=case, kind="maint")
+    if not check_maintained(ctx, tree, case, "suppress_unifurcations(update_bipartitions=True)", False):
+        return
+    emap = sorted((ids.of(e.head_node), s) for s, e in tree.split_bitmask_edge_map.items())
+    got = enc0 + " | " + tu.render_tree(tree, ids) + " | " + tagged() + " | " + " ".join("%d:%d" % (s, i) for i, s in emap)
+    pending.append(("maint %s %d %s" % (case["rooted"], col, " ".join(case["tree"])), case, got))
+
+
 JUDGES = {"pyint": judge_pyint, "pred": judge_pred, "encode": judge_encode, "reencode": judge_reencode, "pair": judge_pair,
           "rebuild": judge_rebuild, "build": judge_build, "treepreds": judge_treepreds, "stalepred": judge_stale,
           "compat": judge_compat, "ucanon": judge_ucanon, "ucanon2": judge_ucanon2, "lsb": judge_bitfunction, "normalize": judge_bitfunction,
           "bip": judge_bip, "recompile": judge_recompile, "bits": judge_bits, "nsmask": judge_nsmask, "hist": judge_hist, "maintained": judge_maintained,
-          "nsbroken": judge_nsbroken}
+          "nsbroken": judge_nsbroken, "maint": judge_maint}
 
 
 def judge(ctx, dendropy, case, pending):
@@ -1625,9 +1657,24 @@ def gen_maintained(ctx, dendropy):
                      touch_maps=rng.random() < 0.5, ops=ops, perm_seed=rng.randint(0, 10 ** 9))
 
 
+def gen_maint(ctx, dendropy):
+    rng = ctx.rng
+    tree = gen_tree(dendropy, rng, ctx.pick(10, 25), hole_rate=0.2)
+    nodes = [nd for nd in tu.walk(tree.seed_node) if nd._parent_node is not None]
+    for nd in rng.sample(nodes, min(len(nodes), rng.randint(0, 3))):
+        p = nd._parent_node
+        pos = p._child_nodes.index(nd)
+        u = dendropy.Node()
+        u.edge.length = tu.dyadic(rng, none_rate=0.3)
+        p.remove_child(nd)
+        u.add_child(nd)
+        p.insert_child(pos, u)
+    return tree_case(tree, "maint", col=rng.random() < 0.6)
+
+
 GENS = {"pyint": gen_pyint, "pred": gen_pred, "encode": gen_encode, "pair": gen_pair, "rebuild": gen_rebuild, "build": gen_build,
         "treepreds": gen_treepreds, "stalepred": gen_stale, "reencode": gen_reencode,
-        "bip": gen_bip, "bits": gen_bits, "nsmask": gen_nsmask, "hist": gen_hist, "maintained": gen_maintained}
+        "bip": gen_bip, "bits": gen_bits, "nsmask": gen_nsmask, "hist": gen_hist, "maintained": gen_maintained, "maint": gen_maint}
 
 
 def flush(ctx, pending):
@@ -1662,7 +1709,7 @@ def gen_case(ctx, dendropy, op):
 
 
 OPS = [("pyint", 0.09), ("pred", 0.1), ("encode", 0.22), ("pair", 0.1), ("rebuild", 0.09), ("build", 0.07), ("treepreds", 0.06),
-       ("stalepred", 0.03), ("reencode", 0.05), ("bip", 0.08), ("bits", 0.04), ("nsmask", 0.02), ("hist", 0.05), ("maintained", 0.14)]
+       ("stalepred", 0.03), ("reencode", 0.05), ("bip", 0.08), ("bits", 0.04), ("nsmask", 0.02), ("hist", 0.05), ("maintained", 0.12), ("maint", 0.03)]
 
 
 def run(ctx):
